@@ -56,9 +56,6 @@ def check(acc, spec, L, share=False):
             acc.viol('regexp_simplify', 'simplified expression denotes a different language', inst, repro=rp, observed={'simplified': rx.show(sspec), 'shortest_distinguishing_word': w})
         if rx.nodes(sspec) > rx.nodes(spec) or rx.doc_size(sspec) > rx.doc_size(spec):
             acc.viol('regexp_simplify', 'simplified expression is larger than its argument', inst, repro=rp, observed=rx.show(sspec))
-        ok2, sz = core.lib_call(acc, 'regexp_size', inst, regexp_size, r, repro=rp)
-        if ok2 and sz != rx.doc_size(spec):
-            acc.viol('regexp_size', 'size differs from the documented measure', inst, repro=rp, observed=sz, expected=rx.doc_size(spec))
         if sspec != spec:
             acc.c['simplify_changed_something'] += 1
 
